@@ -158,4 +158,21 @@ def run (s : MS) : List Op → MS
   | [] => s
   | op :: ops => run (step s op).1 ops
 
+/-- a step that tries to take `id` out of the in-flight map: an answer of any connection, or the scan -/
+def isPopOf (id : Nat) : Op → Bool
+  | .ansMapPop _ i _ => i == id
+  | .scanMapPop i => i == id
+  | _ => false
+
+/-- a step that puts `id` (back) into the in-flight map: a delivery, or the second half of a TOUCH -/
+def isPushOf (id : Nat) : Op → Bool
+  | .delMapPush _ i => i == id
+  | .touchMapPush _ i => i == id
+  | _ => false
+
+/-- how many map pops of `id` succeed along the schedule -/
+def wins (id : Nat) (s : MS) : List Op → Nat
+  | [] => 0
+  | op :: ops => (if isPopOf id op && (step s op).2 == .ok then 1 else 0) + wins id (step s op).1 ops
+
 end Nsq.Model.ChanMicro
